@@ -350,6 +350,10 @@ class Oracle(object):
             return
         if k == "X":
             self.stats["closes"] += 1
+            if out.startswith("exc ") and out[4:] in ("AttributeError", "IndexError", "KeyError", "TypeError", "ValueError",
+                                                      "AssertionError", "RuntimeError"):
+                self.bad("close-internal-error", "close() of socket %s%d (address %s) raised %s"
+                         % (x, i, sock.addr, out[4:]))
             if out == "ok":
                 before = set(ref.owner)
                 ref.closed(i)
@@ -523,6 +527,8 @@ def run(ck):
         # second connection request while an accepted connection shares the SAP of the listener
         ["S A dlc", "B A 0 n " + NA, "L A 0 2", "S B dlc", "C B 0 n " + NA, "A A 0", "S B dlc", "C B 1 n " + NA, "A A 0",
          "S B dlc", "C B 2 a 16", "A A 0", "X A 0", "S B dlc", "C B 3 n " + NA, "D"],
+        # closing twice, closing a stale socket whose address was reused
+        ["S A ldl", "B A 0 -", "X A 0", "X A 0", "S A dlc", "B A 1 a 32", "X A 0", "X A 1", "X A 1", "X A 0", "D"],
         # dynamic exhaustion and reuse
         sum([["S A ldl", "B A %d -" % i] for i in range(33)], []) + ["X A 5", "S A raw", "B A 33 -", "D"],
         # datagram to the right socket among neighbours, connected ldl filter, raw spoofed source
